@@ -65,6 +65,7 @@ for entry, car in RNG_CARRIERS.items():
     jump = 'jump' in entry
     j = job(id='C20.' + entry[6:], tu='tier_a/random.cpp', entry=entry, props=['C20', 'C11'], unwind=(66 if '256' in entry else 34) if jump else 6,
         objbits=8, carriers=car, timeout=150, case_key=entry[6:])
+    if 'splitmix' in entry or 'starstar' in entry or jump or 'nonzero' in entry or 'seed' in entry or entry == 'proof_rngt': j['props'] = ['C20']      # decided by SMT back ends at term level: with CBMC's safety instrumentation on top they do not finish, so no C11 claim rides on them
     if 'splitmix' in entry or 'x256ss' in entry or 'x128ss' in entry or 'starstar' in entry: j.update(backend='portfolio', portfolio=['cvc5', 'z3'])   # equal multiplier chains: decided at term level
     if jump: j.update(backend='portfolio', portfolio=['z3', 'cvc5'])          # XOR-network equivalence: term-level rewriting decides it (12 s); SAT does not finish
     if 'nonzero' in entry:
@@ -492,7 +493,7 @@ for _name, _shape, _tier in _shapes.family(_seed):
     _spec = _shapes.Spec(_shape)
     _ns = len(_spec.states)
     for _e in ('proof_shape_tables', 'proof_shape_dispatch'):
-        job(id='C17.%s.%s' % (_name, _e[12:]), tu='tier_d/shape.cpp', defs=_spec.defines(), entry=_e, props=['C17'] + (['C11'] if _tier == 'quick' and _ns <= 12 else []), quick_for=['C17'], tier=_tier,
+        job(id='C17.%s.%s' % (_name, _e[12:]), tu='tier_d/shape.cpp', defs=_spec.defines(), entry=_e, props=['C17'] + (['C11'] if _tier == 'quick' and _ns <= 12 and not _name.startswith('random') else []), quick_for=['C17'],      # (seed-dependent shapes carry no C11 claim) tier=_tier,
             unwind=max(_ns, 2 * _spec.prongs, 8 * _spec.units) + 3, objbits=12, timeout=900,
             carriers=[r'S_<.*>::deepRegister', r'C_<.*>::deepRegister|O_<.*>::deepRegister', r'RF_<.*>::stateId<'] if _e == 'proof_shape_tables' else [r'R_<.*>::immediateChangeTo|R_<.*>::changeTo', r'RegistryT<.*>::isActive'],
             case_key='shape %s = %s' % (_name, _spec.text()))
